@@ -276,13 +276,18 @@ class TreeToODE(lark.Transformer):
         """Convert a list of parameters to atoms.Parameter"""
         return lark_list_to_parameters(s, cls=atoms.Parameter)
 
-    def expressions(self, s) -> tuple[atoms.Assignment, ...]:
+    def expressions(self, s) -> tuple[atoms.Assignment | atoms.Comment, ...]:
         """Convert a list of expressions to atoms.Assignment"""
         i, components = find_components(s)
 
-        assignments = []
+        assignments: list[atoms.Assignment | atoms.Comment] = []
 
         for si in s[i:]:
+            if isinstance(si, atoms.Comment):
+                # A comment line inside the block. Pass it on so that
+                # it ends up among the comments of the ODE
+                assignments.append(si)
+                continue
             assignments.extend(find_assignments(si, components=components))
 
         return tuple(assignments)
@@ -325,6 +330,11 @@ class TreeToODE(lark.Transformer):
                 continue
 
             for atom in line:  # State, Parameters or Assignment
+                if isinstance(atom, atoms.Comment):
+                    # Comment line inside an expressions block
+                    comments.append(atom)
+                    continue
+
                 # A name can only be defined once. Note that this has to be
                 # checked here: the atoms are collected in sets below, where
                 # two assignments with different right hand sides can compare
